@@ -1,0 +1,37 @@
+//go:build verif
+
+package fsmservice
+
+// All round dumps live in one JSON value of the node's key-value store (checked by /verif/gocv; comment-only file).
+// Ghost: $fsmLoaded = the map produced by the last getAllFSMData, $loadStamp = the store's write counter at that
+// moment ($kvWrites, see client/repositories/operation/contracts_verif.go).
+//@ ghost var $fsmLoaded map[string][]byte
+//@ ghost var $loadStamp int
+//@ import state_machines "github.com/lidofinance/dc4bc/fsm/state_machines"
+
+//@ func (*FSM).getAllFSMData
+//@   nosafety
+//@   requires fsm != nil
+//@   pure
+//@   epilogue $fsmLoaded = fsmInstances
+//@   epilogue $loadStamp = $kvWrites
+//@   assert@call Get[C08.load.key] key == fsm.stateKey
+//@   ensures err == nil ==> fsmInstances == nil || fresh(fsmInstances)
+
+// A round is restored from the dump stored under its own identifier, as the store holds it now.
+//@ func (*FSM).loadFSM
+//@   nosafety
+//@   requires fsm != nil
+//@   modifies *
+//@   modifies $fsmLoaded, $loadStamp
+//@   assert@call FromDump[C08.load.round] data == $fsmLoaded[dkgRoundID] && (dkgRoundID in $fsmLoaded) && $loadStamp == $kvWrites
+
+// Saving a round rewrites the one JSON value with this round's entry replaced and every other entry as loaded.
+//@ func (*FSM).SaveFSM
+//@   nosafety
+//@   requires fsm != nil
+//@   modifies map[string][]byte
+//@   modifies $fsmLoaded, $loadStamp, $kv, $kvHas, $kvWrites, $lastSetKey
+//@   assert@call Marshal[C08.save.round] loc(fsmInstances) == $fsmLoaded && loc(fsmInstances)[dkgRoundID] == dump && $loadStamp == $kvWrites
+//@   assert@call Set[C08.save.key] key == fsm.stateKey && content(value) == content(loc(fsmInstancesBz))
+//@   ensures[C08.save.once] $kvWrites <= old($kvWrites) + 1
